@@ -432,13 +432,15 @@ class Lane:
 
     def do_scene(self, index):
         ctx = self.ctx
+        frames_before = list(self.manager.frame_results)
         try:
             score = self.manager.get_scene_result()
             exc = None
         except Exception as e:  # noqa
             score, exc = None, e
         self.scene_scores.append({"index": index, "score": score, "exc": exc, "n_frames": len(self.manager.frame_results),
-                                  "gen": self.generation,
+                                  "gen": self.generation, "frames_before": frames_before,
+                                  "delivered": [st.result for st in self.steps if st.result is not None and st.manager_gen == self.generation],
                                   "tb": traceback.extract_tb(exc.__traceback__) if exc is not None else None})
         for m in self.monitors:
             m.on_scene(ctx, self, self.manager, self.scene_scores[-1], index)
